@@ -682,6 +682,8 @@ _READERS = {"C07", "C08"}
 
 def tie_relevant(prop, tie):
     name = tie[4:]
+    if name.startswith("stats_"):
+        return prop == "C10"                       # counter tables of the statistics collector
     if name.startswith("fibex_"):
         return prop == "C11"                       # the type vocabulary of the FIBEX loader
     if name == "skip_with_level":
